@@ -1,8 +1,13 @@
+use std::cell::Cell;
 use std::ptr;
 
 use crate::{decorate_for_target, Context};
 
-static mut LOG_RET_AREA: [usize; 5] = [0; 5];
+thread_local! {
+    // The copy plan is returned by reference and read by the caller after the call returns, so it
+    // must belong to the calling thread like the rest of the invocation state.
+    static LOG_RET_AREA: Cell<[usize; 5]> = const { Cell::new([0; 5]) };
+}
 // One more byte so we can check if we're truncating.
 const CAPACITY: usize = 1001;
 
@@ -88,15 +93,10 @@ decorate_for_target! {
     fn shopify_function_log_new_utf8_str(len: usize) -> *const usize {
         Context::with_mut(|context| {
             let (src_offset, ptr1, len1, ptr2, len2) = context.allocate_log(len);
-            #[allow(static_mut_refs)] // This is _technically_ safe given this is single threaded.
-            unsafe {
-                LOG_RET_AREA[0] = src_offset;
-                LOG_RET_AREA[1] = ptr1 as usize;
-                LOG_RET_AREA[2] = len1;
-                LOG_RET_AREA[3] = ptr2 as usize;
-                LOG_RET_AREA[4] = len2;
-                LOG_RET_AREA.as_ptr()
-            }
+            LOG_RET_AREA.with(|area| {
+                area.set([src_offset, ptr1 as usize, len1, ptr2 as usize, len2]);
+                area.as_ptr() as *const usize
+            })
         })
     }
 }
